@@ -11,13 +11,14 @@ import (
 )
 
 type qSpec struct {
-	Kind   string
-	Params []int
-	Ramp   []hapi.QOp
-	Alpha  []string // operation names; "push" takes the next fresh id, "push-pN" a fresh id of priority N
-	Depth  int
-	Prio   bool // reference is a stable priority queue
-	Fifo   bool // waitqueue: FIFO until "repush"
+	Kind      string
+	Params    []int
+	Ramp      []hapi.QOp
+	Alpha     []string // operation names; "push" takes the next fresh id, "push-pN" a fresh id of priority N
+	Depth     int
+	Prio      bool // reference is a stable priority queue
+	Fifo      bool // waitqueue: FIFO until "repush"
+	MaxStates int  // >0: this spec's own state cap
 }
 
 func (s *qSpec) name() string {
@@ -65,6 +66,25 @@ func (r *refQ) apply(o hapi.QOp, ob hapi.QObs) string {
 	case "pushleft":
 		if ob.Ret == 1 {
 			r.l = append([]int{o.Arg}, r.l...)
+		}
+	case "pushnode":
+		if ob.Ret < 1 {
+			return "push refused"
+		}
+		for i := 0; i < ob.Ret; i++ {
+			r.l = append(r.l, o.Arg+i)
+		}
+	case "drain", "drain1":
+		ord := r.order()
+		if o.Op == "drain1" && len(ord) > 0 {
+			ord = ord[:len(ord)-1]
+		}
+		if fmt.Sprint(ob.Iter) != fmt.Sprint(ord) && !(len(ob.Iter) == 0 && len(ord) == 0) {
+			return fmt.Sprintf("popping %s returned %v, a plain queue returns %v", map[string]string{"drain": "everything", "drain1": "all but the last element"}[o.Op], ob.Iter, ord)
+		}
+		r.l = r.l[len(r.l)-(len(r.order())-len(ord)):]
+		if o.Op == "drain" {
+			r.l = nil
 		}
 	case "pop", "head":
 		want := 0
@@ -151,6 +171,9 @@ func materialise(ramp []hapi.QOp, names []string) []hapi.QOp {
 		case n == "push" || n == "pushleft":
 			ops = append(ops, hapi.QOp{Op: n, Arg: next})
 			next++
+		case n == "pushnode":
+			ops = append(ops, hapi.QOp{Op: n, Arg: next})
+			next += 5000
 		case strings.HasPrefix(n, "push-p"):
 			p := int(n[6] - '0')
 			ops = append(ops, hapi.QOp{Op: "push", Arg: p*1000 + next})
@@ -185,6 +208,9 @@ type qResult struct {
 
 func runQSpec(s *qSpec, maxStates int) *qResult {
 	res := &qResult{spec: s}
+	if s.MaxStates > 0 {
+		maxStates = s.MaxStates
+	}
 	seen := map[string]bool{}
 	frontier := [][]string{{}}
 	eval := func(names []string) (key string, bad string) {
@@ -222,30 +248,48 @@ func runQSpec(s *qSpec, maxStates int) *qResult {
 	for d := 1; d <= s.Depth; d++ {
 		var next [][]string
 		newS := 0
+		// the candidates of one level are evaluated in parallel (each evaluation replays its history on a fresh queue)
+		// and merged in their fixed order, so the result does not depend on timing
+		var cands [][]string
 		for _, h := range frontier {
 			for _, a := range s.Alpha {
-				nh := append(append([]string{}, h...), a)
-				res.transitions++
-				k, bad := eval(nh)
-				if bad != "" {
-					sig := "C20:" + s.Kind
-					for _, x := range nh {
-						if x == "shrink" {
-							sig = "C20:" + s.Kind + "/after-shrink"
-						}
-					}
-					res.viol = &explore.Violation{Sig: sig, Msg: s.name() + ": " + bad}
-					res.hist = nh
-					return res
+				cands = append(cands, append(append([]string{}, h...), a))
+			}
+		}
+		keys, bads := make([]string, len(cands)), make([]string, len(cands))
+		var lwg sync.WaitGroup
+		nw := 8
+		for w := 0; w < nw; w++ {
+			lwg.Add(1)
+			go func(w int) {
+				defer lwg.Done()
+				for i := w; i < len(cands); i += nw {
+					keys[i], bads[i] = eval(cands[i])
 				}
-				if !seen[k] {
-					seen[k] = true
-					res.states++
-					newS++
-					next = append(next, nh)
-					if d == s.Depth && res.sample == "" {
-						res.sample = strings.Join(nh, ",")
+			}(w)
+		}
+		lwg.Wait()
+		for i, nh := range cands {
+			res.transitions++
+			k, bad := keys[i], bads[i]
+			if bad != "" {
+				sig := "C20:" + s.Kind
+				for _, x := range nh {
+					if x == "shrink" {
+						sig = "C20:" + s.Kind + "/after-shrink"
 					}
+				}
+				res.viol = &explore.Violation{Sig: sig, Msg: s.name() + ": " + bad}
+				res.hist = nh
+				return res
+			}
+			if !seen[k] {
+				seen[k] = true
+				res.states++
+				newS++
+				next = append(next, nh)
+				if d == s.Depth && res.sample == "" {
+					res.sample = strings.Join(nh, ",")
 				}
 			}
 		}
@@ -398,6 +442,17 @@ func c20Specs(quick bool) []*qSpec {
 				ramp = append(ramp, hapi.QOp{Op: "pop"})
 			}
 			specs = append(specs, &qSpec{Kind: kind, Params: pr.p, Ramp: ramp, Alpha: []string{"push", "pop", "popright", "restructuring", "len", "iter"}, Depth: d + 4})
+		}
+	}
+	// bulk symbols explored deep: "pushnode" fills the tail node and steps into the next one, "drain" / "drain1" pop
+	// everything / all but one; with reallocate, resize and restructure in between the queue walks through every
+	// combination of spare nodes kept behind the tail, moved node tables and freed nodes
+	for _, kind := range []string{"lock", "command", "manager"} {
+		for _, p := range [][]int{{1, 8, 1}, {1, 2, 2}, {2, 4, 2}} {
+			if quick && p[1] != 8 {
+				continue
+			}
+			specs = append(specs, &qSpec{Kind: kind, Params: p, Alpha: []string{"pushnode", "push", "pop", "drain", "drain1", "rellac", "resize", "restructuring", "iter"}, Depth: 24, MaxStates: map[bool]int{true: 70000, false: 0}[quick]})
 		}
 	}
 	// Shrink (no call site in slock) in a spec of its own, so that what it breaks does not stop the other searches
